@@ -222,6 +222,50 @@ def hash_guards(ctx, facts, rule):
     ctx.ob(rule, "h3_verify:sends-three-hashes", hs >= 3, f"h3 sends {hs} locally computed hashes", site_of(b3))
 
 
+def _reveal_then_form(ctx, facts, rule, b):
+    """`(from_left == from_right).then(|| Some(opened)).ok_or(Err(MaliciousRevealFailed))` as the returned value: then()
+    runs the closure exactly when the comparison holds and ok_or turns the None of a mismatch into the error.  Emits the
+    same obligations as the branch form; returns False when the body does not have this shape."""
+    old = flow.CLOSURE_DEFS
+    flow.CLOSURE_DEFS = True
+    try:
+        for bb, t in flow.find_calls(b, re.compile(r"<impl bool>::then$")):
+            cond = flow.strip_casts(flow.expr_of(b, t["args"][0], max_depth=30))
+            neg = False
+            while cond[0] == "un" and cond[1] == "Not":
+                neg, cond = not neg, flow.strip_casts(cond[2])
+            if not (cond[0] == "call" and re.search(r"PartialEq::(eq|ne)$|ConstantTimeEq::ct_(eq|ne)$", cond[1]) and len(cond[2]) >= 2):
+                continue
+            a0, a1 = cond[2][0], cond[2][1]
+            if not ("receive" in str(a0) and "receive" in str(a1)):
+                continue
+            is_eq = cond[1].endswith("eq") != neg
+            clo = flow.expr_of(b, t["args"][1], max_depth=30)
+            cb = facts.bodies.get(clo[1][1]) if clo[0] == "agg" and isinstance(clo[1], tuple) and clo[1][0] == "closure" else None
+            ctx.ob(rule, "malicious_reveal:two-copies", str(a0) != str(a1), "the two operands are the two different received copies" if str(a0) != str(a1) else "a received share is compared with itself: a tampered copy is never noticed", site_of(b, bb))
+            # the opened value exists only inside the closure, and then() is given the comparison itself
+            somes_main = [x for x, idx, s in b.iter_assigns() if s["r"]["k"] == "agg" and s["r"].get("adt") == "std::option::Option" and s["r"].get("vn") == "Some" and "x" not in s and "receive" in str(flow.expr_of(b, s["r"]["ops"][0]))]
+            inner = cb is not None and "receive" in str(clo[2]) and (lambda r: r[0] == "agg" and r[1] == ("std::option::Option", "Some"))(flow.expr_of(cb, {"cp": [0]}, max_depth=6))
+            ok = is_eq and inner and not somes_main
+            ctx.ob(rule, "malicious_reveal:open-only-if-equal#1", ok, "the value is opened only if both copies agree" if ok else "the opened value is produced although the two received copies differ (or without comparing them)", site_of(b, bb))
+            ctx.floor(rule, "opened-value sites in malicious_reveal", 1 if inner else 0, 1)
+            # mismatch => Err: the function's value is ok_or(then(..), MaliciousRevealFailed)
+            oke = False
+            for ob, ot in flow.find_calls(b, re.compile(r"Option::<T>::ok_or(_else)?$")):
+                o0, o1 = (str(flow.expr_of(b, x, max_depth=8)) for x in ot["args"][:2])
+                errs = o1 + "".join(str(x["r"].get("vn")) for c in facts.tree(b.root) if c.kind == "Closure" and c.path in o1 for _, _, x in c.iter_assigns() if x["r"]["k"] == "agg")
+                # after ok_or nothing else produces an Ok: what is returned on this path is ok_or's value
+                oke = oke or (o0.startswith("('call', 'core::bool::<impl bool>::then'") and "MaliciousRevealFailed" in errs and not (set(ok_blocks(b)) & b.reachable(ob)))
+            ctx.ob(rule, "malicious_reveal:err-on-mismatch", oke, "mismatch => Err(MaliciousRevealFailed)" if oke else "the result of the comparison is not turned into Err(MaliciousRevealFailed) on a mismatch", site_of(b, bb))
+            rec = flow.find_calls(b, re.compile(r"::receive$"))
+            chans = {str(flow.expr_of(b, t2["args"][0])) for _, t2 in rec}
+            ctx.ob(rule, "malicious_reveal:two-receivers", len(chans) >= 2, f"{len(chans)} distinct receive channels", site_of(b))
+            return True
+    finally:
+        flow.CLOSURE_DEFS = old
+    return False
+
+
 def malicious_reveal_guard(ctx, facts, rule):
     ctx.rule(f"{rule}: malicious_reveal returns Ok(Some(_)) only on the equal edge of a comparison between the share received from the left peer and the share received from the right peer; otherwise Err(MaliciousRevealFailed)")
     b = async_body(facts, "protocol::basics::reveal::malicious_reveal")
@@ -236,6 +280,8 @@ def malicious_reveal_guard(ctx, facts, rule):
         a0, a1 = call[2][0], call[2][1]
         if "receive" in str(a0) and "receive" in str(a1):
             sel.append((sw, e, ed, call))
+    if not sel and _reveal_then_form(ctx, facts, rule, b):
+        return
     if not sel:
         ctx.ob(rule, "malicious_reveal:comparison", False, "no comparison between the two received copies gates the opened value", site_of(b))
         return
